@@ -64,8 +64,19 @@ func propagateMatchers(binOp *parser.BinaryExpr) {
 	}
 
 	finalMatchers := toSlice(union)
-	lhSelector.LabelMatchers = finalMatchers
-	rhSelector.LabelMatchers = finalMatchers
+	// The union leaves out the matchers on the metric name: each side keeps its own.
+	lhSelector.LabelMatchers = append(nameMatchers(lhSelector), finalMatchers...)
+	rhSelector.LabelMatchers = append(nameMatchers(rhSelector), finalMatchers...)
+}
+
+func nameMatchers(selector *parser.VectorSelector) []*labels.Matcher {
+	var matchers []*labels.Matcher
+	for _, m := range selector.LabelMatchers {
+		if m.Name == labels.MetricName {
+			matchers = append(matchers, m)
+		}
+	}
+	return matchers
 }
 
 func toSlice(union map[string]*labels.Matcher) []*labels.Matcher {
